@@ -3,7 +3,7 @@
    regenerated from /repo on every run (constant + source text of the helpers, tied in
    Proofs_shape.v).  Names are label lists, root first; [canon] folds ASCII case. *)
 From Sdns Require Import Common.Base Gen.C07 C07.Model C07.Proofs_names C07.Proofs_exchange
-  C07.Proofs_glue C07.Proofs_referral C07.Proofs_contain C07.Proofs_chase C07.Proofs_gluehist C07.Proofs_local C07.Proofs_fold C07.Proofs_zone C07.Proofs_sub C07.Proofs_gen C07.Proofs_gluename C07.Proofs_twosite C07.Proofs_shape.
+  C07.Proofs_glue C07.Proofs_referral C07.Proofs_contain C07.Proofs_chase C07.Proofs_gluehist C07.Proofs_local C07.Proofs_fold C07.Proofs_zone C07.Proofs_sub C07.Proofs_gen C07.Proofs_gluename C07.Proofs_twosite C07.Proofs_deleg C07.Proofs_shape.
 Open Scope N_scope.
 
 (* A reply is accepted only when it parses, carries the outstanding query's ID and - when the
@@ -330,3 +330,52 @@ Theorem glue_origin_is_the_asked_question :
     Forall (entry_ok local level (q_name q) hosts) (gr_addrs4 g) /\ Forall (entry_ok local level (q_name q) hosts) (gr_addrs6 g).
 Proof. exact exchange_then_glue_origin. Qed.
 Print Assumptions glue_origin_is_the_asked_question.
+
+(* THE DELEGATION CACHE ACROSS ANY HISTORY (processAuthoritySection -> processDelegation -> checkGlueRR -> lookupV4Nss).
+   Whatever the servers of whatever zones send - any response code (resolve() hands over every reply with an empty
+   Answer and a non-empty Authority; the model never looks at u_rcode), any NS sets, glue and address-lookup results -
+   every entry on file afterwards, and every provisional entry published while NS-host addresses were being looked
+   up, (1) carries as its zone label - the name every bailiwick test for replies of its servers is made against - the
+   very name it is filed under; (2) that name owns ONE coherent NS set, in the question's class, of a message sent by
+   the servers of a zone strictly above it, and lies on the path to the name being resolved; (3) its hosts are targets
+   of that set; (4) its server addresses are neither loopback nor local. *)
+Theorem delegation_cache_history_sound :
+  forall local evs st results,
+  deleg_history local ([], []) evs = (st, results) ->
+  (forall k d, In (k, d) (snd st) -> deleg_entry_ok local evs k d) /\
+  (forall r b d, In r results -> In (b, d) (dr_snaps r) -> deleg_entry_ok local evs (de_zone d) d).
+Proof. exact deleg_history_sound. Qed.
+Print Assumptions delegation_cache_history_sound.
+
+(* "No record owned outside the zone whose servers sent it is cached under its own name", for NS sets: a name is in
+   the delegation cache only if the servers of a zone strictly above it sent its NS set for a name below it *)
+Theorem delegation_cached_only_below_sender :
+  forall local evs st results k d,
+  deleg_history local ([], []) evs = (st, results) -> In (k, d) (snd st) ->
+  exists auth level q m order answers, In (DelegMsg auth level q m order answers) evs /\
+    is_sub auth k = true /\ (length auth < length k)%nat /\ is_sub k (q_name q) = true.
+Proof. exact deleg_only_below_sender. Qed.
+Print Assumptions delegation_cached_only_below_sender.
+
+(* the referral rule at the cache boundary does not depend on the response code *)
+Theorem delegation_rule_ignores_rcode :
+  forall local st auth level q rc rc' a n x order answers,
+  deleg_apply local st (DelegMsg auth level q (mk_umsg rc a n x) order answers) =
+  deleg_apply local st (DelegMsg auth level q (mk_umsg rc' a n x) order answers).
+Proof. exact deleg_apply_rcode_blind. Qed.
+Print Assumptions delegation_rule_ignores_rcode.
+
+(* WHERE A RESOLUTION STARTS (Resolver.searchCache on a cache filled by any such history).  The server set a later
+   resolution of [qname] starts with - the deepest entry on file for qname or one of its ancestors; for a DS question
+   the walk starts one label up - carries a zone label that encloses qname (strictly, for DS), is filed under that very
+   name, and the level seeded for the glue test is that zone's depth.  With asked_zone_encloses_qname (referral
+   chains) this is "a zone's servers are asked only names inside the zone they are labelled with". *)
+Theorem resolution_starts_inside_labelled_zone :
+  forall local evs st results ds qname z e lv,
+  deleg_history local ([], []) evs = (st, results) ->
+  search_cache (snd st) ds qname = (Some (z, e), lv) ->
+  name_eqb (de_zone e) z = true /\ is_sub (de_zone e) qname = true /\ lv = length (de_zone e) /\
+  (ds = true -> (length (de_zone e) < length qname)%nat) /\
+  exists k, In (k, e) (snd st) /\ deleg_entry_ok local evs k e.
+Proof. exact search_cache_sound. Qed.
+Print Assumptions resolution_starts_inside_labelled_zone.
